@@ -1,4 +1,5 @@
 import SqlgrepModel.Lemmas.LexRender
+import SqlgrepModel.Lemmas.LexFuse
 import SqlgrepModel.Lemmas.LexTables
 /-
 C20 — a statement's meaning does not depend on layout, letter case or clause order; text inside string literals is
@@ -40,6 +41,19 @@ lexemes denote, followed by `End`.  (Induction over the lexeme sequence with the
 theorem tokenize_render (o : Oracles) (L : Layout) (h : L.Ok o) :
     tokens o L.text = some (fuse (L.lexemes.map (·.tok o)) ++ [.eof]) :=
   tokens_layout o L h
+
+/-- **The same, read from the tokens**: for every token list `ts` that contains no neighbouring pair which *every*
+layout fuses (`NoBadPair`: `IS`·`NOT`, `IS`·`NOT IN`, `NOT`·`IN`, `:`·`:`, `:`·`::`) and every layout whose lexemes
+spell `ts` (`unfuse`: `IsNot`, `NotIn`, `::` are spelled as two lexemes each — with any gap between them), tokenizing
+the rendered text yields `ts` followed by `End`. -/
+theorem tokenize_render_tokens (o : Oracles) (ts : List Tok) (L : Layout) (h : L.Ok o)
+    (spells : L.lexemes.map (·.tok o) = unfuse ts) (hts : NoBadPair ts) :
+    tokens o L.text = some (ts ++ [.eof]) := by
+  rw [tokenize_render o L h, spells, fuse_unfuse ts hts]
+
+/-- the side condition of `tokenize_render_tokens` is necessary: `IS` followed by `NOT` is read as `IsNot` under any layout -/
+example : tokens Tables.asciiOnly "is -- c\n \t not".toList = some [.kw .isNot, .eof] ∧ ¬ NoBadPair [.kw .is, .kw .not] := by
+  decide
 
 /-- **Layout invariance.**  Two texts that are layouts of lexeme sequences denoting the same tokens — i.e. that
 differ only in letter case of keywords and literal words, in whitespace, line breaks and comments between tokens, in
@@ -125,6 +139,16 @@ example : exampleLayout.Ok Tables.asciiOnly := by decide
 example : tokens Tables.asciiOnly exampleLayout.text =
     some [.kw .select, .ident ['x'], .op (.dual '<' '='), .int 7, .str ['i', 't', '\'', 's'], .semi, .eof] := by
   decide
+
+/-- the hypotheses of `tokenize_render_tokens` on the same layout -/
+example : exampleLayout.lexemes.map (·.tok Tables.asciiOnly) =
+      unfuse [.kw .select, .ident ['x'], .op (.dual '<' '='), .int 7, .str ['i', 't', '\'', 's'], .semi] ∧
+    NoBadPair [.kw .select, .ident ['x'], .op (.dual '<' '='), .int 7, .str ['i', 't', '\'', 's'], .semi] := by
+  decide
+
+/-- a layout spelling the fused tokens: `x IS⏎NOT NULL :: :` reads as `x IsNot Null DoubleColon Colon` -/
+example : tokens Tables.asciiOnly "x IS\nNOT NULL : -- c\n: :".toList =
+    some [.ident ['x'], .kw .isNot, .null, .dcolon, .colon, .eof] := by decide
 
 /-! ## Parser-level clauses (to be added by the parser builders)
 
